@@ -3,8 +3,6 @@ package internal
 import (
 	"context"
 	"encoding/base64"
-	"errors"
-	"io"
 	"strings"
 	"time"
 
@@ -131,7 +129,10 @@ func StatsEndRPC(
 			BeginTime: beginTime,
 			EndTime:   time.Now(),
 		}
-		if appErr != nil && !errors.Is(appErr, io.EOF) {
+		// Every non-nil result fails the RPC for the peer (a handler returning
+		// io.EOF is reported to the caller as an Unknown status), so none of
+		// them is a success for the stats handlers either.
+		if appErr != nil {
 			end.Error = appErr
 		}
 		sh.HandleRPC(ctx, end)
